@@ -66,6 +66,8 @@ func propC13(c *Ctx) {
 	}
 	t := c.Tables()
 	c.ruleC13(m, t)
+	// where a file starts, exactly what may start a line may stand (no extra bytes skipped, none refused)
+	c.ruleStartState(m, "C13-START-STATE")
 	c.ruleFirstByteTables("C13-KEYWORD-PREFILTER")
 	c.ruleNextDirectiveRecognised("C13-NEXT-DIRECTIVE")
 	c.ruleResponseCodeGate("C13-RESPONSE-CODE-GATE")
